@@ -87,6 +87,17 @@ class Wrappers:
             raise Unsupported("cannot locate wrapper %s (%d candidates)" % (pat, len(c)))
         return c[0]
 
+    def closure_of_block(self, ctor_sig_pat):
+        """poll function of the `async move { .. }` block returned by a plain fn (e.g. `close(self) -> impl Future`)"""
+        ctors = [f for k, f in self.fns.items() if not k.endswith("{closure#0}") and re.search(ctor_sig_pat, f.sig)]
+        if len(ctors) != 1:
+            raise Unsupported("cannot locate the constructor %s (%d candidates)" % (ctor_sig_pat, len(ctors)))
+        blk = re.search(r"-> (\{async block@[^}]*\})", ctors[0].sig).group(1)
+        c = [f for k, f in self.fns.items() if k.endswith("::{closure#0}") and ("_1: Pin<&mut " + blk + ">") in f.sig]
+        if len(c) != 1:
+            raise Unsupported("cannot locate the body of %s" % blk)
+        return c[0]
+
     def coroutine_fn(self, co):
         """poll function of an async fn body, by its source span"""
         span = co.span
@@ -192,7 +203,8 @@ class Wrappers:
         def s_poll_nested(I, a, p, c):
             co = a[0].f[0].v.cell.v
             if not isinstance(co, Coroutine):
-                raise Unsupported("poll of a non-coroutine future %r in %s" % (co, c))
+                # an `async` block of another crate (e.g. SharedFd::take): an uninterpreted future
+                return (yield from s_poll_unknown(I, a, p, c))
             fn = me.poll_fn_for(co, c)
             r = yield from I.call_fn(fn, [a[0], a[1]], p)
             return r
@@ -222,7 +234,7 @@ class Wrappers:
         I = Interp(self.fns, self.consts, S, resolver=self.resolver)
         I.fallback = fallback
         I.drop_hook = lambda *a: None
-        fn = self.closure_of(wrapper_pat)
+        fn = self.closure_of_block(wrapper_pat[len("block:"):]) if wrapper_pat.startswith("block:") else self.closure_of(wrapper_pat)
         co = Coroutine({i: Cell(v) for i, v in enumerate(upvars)})
         cx = Ref(Cell(("ctx",)))
         out = None
@@ -330,6 +342,7 @@ SPECS = {
              op="WriteVectoredAt", op_args=["fd(self)", "pos", "buf"], pipeline=["into_inner"]),
         Spec("File::write_at", r"<file::File as (?:compio_io::)?AsyncWriteAt>::write_at<T>\(\)", ["&self", "buf", "pos"],
              op="WriteAt", op_args=["fd(self)", "pos", "buf"], pipeline=["into_inner"]),
+        Spec("File::close", r"block:\(_1: file::File\) -> \{async block@", ["self"], op="CloseFile", delegate="__close__"),
         Spec("File::sync_all", r"file::File::sync_all\(\)", ["&self"], op="Sync", op_args=["fd(self)", "false"], pipeline=None),
         Spec("File::sync_data", r"file::File::sync_data\(\)", ["&self"], op="Sync", op_args=["fd(self)", "true"], pipeline=None),
     ],
@@ -344,6 +357,7 @@ SPECS = {
              op="SendVectored", op_args=["fd(self)", "buf", "flags"], pipeline=["into_inner"]),
         Spec("Socket::recv_from", r"socket::Socket::recv_from<\w+>\(\)", ["&self", "buf", "flags"],
              op="RecvFrom", op_args=["fd(self)", "buf", "flags"], pipeline=["into_inner", "map_addr", "map_advanced"]),
+        Spec("Socket::close", r"block:\(_1: socket::Socket\) -> \{async block@", ["self"], op="CloseSocket", delegate="__close__"),
         Spec("Socket::shutdown", r"socket::Socket::shutdown\(\)", ["&self"],
              op="ShutdownSocket", op_args=["fd(self)", "Write"], pipeline=None),
         Spec("&TcpStream::shutdown", r"<&tcp::TcpStream as (?:compio_io::)?AsyncWrite>::shutdown\(\)", ["&&self"],
@@ -383,7 +397,9 @@ def make_check(wr, spec):
         ups = []
         toks = {"self": selft}
         for prm in spec.params:
-            if prm.startswith("&&"):
+            if prm == "self":
+                ups.append(TObj(selft))
+            elif prm.startswith("&&"):
                 ups.append(Ref(Cell(Ref(Cell(TObj(selft))))))
             elif prm.startswith("&"):
                 ups.append(Ref(Cell(TObj(selft))))
@@ -395,6 +411,24 @@ def make_check(wr, spec):
         if W.result is None:
             return [("wrapper completes once its submission is ready", z3.BoolVal(False))]
         res = W.val(W.result)
+        if spec.delegate == "__close__":
+            # close(self): wait until every other holder of the descriptor has let go (SharedFd::take().await), then close
+            # it with one CloseFile / CloseSocket operation — or do nothing if somebody else is already closing it
+            takes = [c for c in W.calls if re.search(r"(?:^|::)take$", c[0])]
+            obs.append(("close waits on take() of its own descriptor, exactly once",
+                        z3.BoolVal(len(takes) == 1 and len(takes[0][1]) == 1 and derived_from(takes[0][1][0], selft))))
+            obs.append(("close never uses try_unwrap / is_unique style shortcuts",
+                        z3.BoolVal(not any(re.search(r"try_unwrap|is_unique|strong_count", c[0]) for c in W.calls))))
+            if len(takes) != 1:
+                return obs
+            awaited = fun("await", 1)(fun(takes[0][0], 1)(takes[0][1][0]))
+            obs.append(("at most one operation is built and submitted", z3.BoolVal(len(W.ops) <= 1 and len(W.submits) == len(W.ops))))
+            if len(W.ops) == 1:
+                kind, args = W.ops[0]
+                obs.append(("the operation is a %s" % spec.op, z3.BoolVal(kind == spec.op)))
+                obs.append(("it closes the descriptor that take() handed over",
+                            z3.BoolVal(len(args) == 1 and derived_from(args[0], awaited))))
+            return obs
         if spec.delegate:
             # generic half: the call is forwarded to the same method of the wrapped stream, nothing else is submitted
             ok = z3.is_app(res) and _name(res).startswith("await") and z3.is_app(res.arg(0)) and \
